@@ -581,18 +581,31 @@ fn mb_split_across_writes(case: &Case, b: &Built) -> bool {
     any
 }
 
-/// Re-read a file until it equals `want` (at most one retry after 200 ms).
-/// Returns (bytes, transient, length seen by the first read)
-fn read_stable(path: &Path, want: &[u8]) -> (Vec<u8>, bool, usize) {
+/// Read a stored artifact that is expected to equal `want`. A mismatch is re-read after 200 ms;
+/// if it still differs the file is polled for up to 10 s (on a loaded machine the detached
+/// blocking write of tokio::fs::File was seen to land later than 200 ms): equal at any point =
+/// transient (counted, reported, not a failure); still different after 10 s = persistent.
+/// Returns (bytes, transient, length seen by the first read, slower than 200 ms)
+fn read_stable(path: &Path, want: &[u8]) -> (Vec<u8>, bool, usize, bool) {
     let first = std::fs::read(path).unwrap_or_default();
     if first == want {
         let n = first.len();
-        return (first, false, n);
+        return (first, false, n, false);
     }
     std::thread::sleep(Duration::from_millis(200));
-    let second = std::fs::read(path).unwrap_or_default();
-    let transient = second == want;
-    (second, transient, first.len())
+    let mut cur = std::fs::read(path).unwrap_or_default();
+    if cur == want {
+        return (cur, true, first.len(), false);
+    }
+    let t0 = Instant::now();
+    while t0.elapsed() < Duration::from_secs(10) {
+        std::thread::sleep(Duration::from_millis(100));
+        cur = std::fs::read(path).unwrap_or_default();
+        if cur == want {
+            return (cur, true, first.len(), true);
+        }
+    }
+    (cur, false, first.len(), false)
 }
 
 // ---------------------------------------------------------------------------------------------
@@ -1287,7 +1300,10 @@ async fn task_case(auth: &Authority, case: &Case, strict: Strict, rep: &mut Case
         crossed |= t > l as u64 || t > READ_SIZE || t > cap;
         let want = &full[..bs as usize];
         let path = auth.sandbox.blob_path(aid);
-        let (stored, tr1, first_len) = read_stable(&path, want);
+        let (stored, tr1, first_len, slow) = read_stable(&path, want);
+        if slow {
+            rep.count("transient_slower_than_200ms", 1);
+        }
         if tr1 {
             // the terminal frame (and the task snapshot) were written before the artifact file
             // held all the bytes the frame reports as stored
@@ -1633,8 +1649,11 @@ async fn fg_case(case: &Case, strict: Strict, rep: &mut CaseReport) {
         if art["path"].as_str() != Some(&format!(".rip/artifacts/blobs/{id}")) {
             rep.fail(format!("artifact|{}|path", case.surface), ctx.clone());
         }
-        let (stored, tr1, _first_len) = read_stable(&sb.blob_path(id), want);
+        let (stored, tr1, _first_len, slow) = read_stable(&sb.blob_path(id), want);
         transient |= tr1;
+        if slow {
+            rep.count("transient_slower_than_200ms", 1);
+        }
         if sha_hex(&stored) != id {
             rep.fail(
                 format!("artifact|{}|file_bytes_do_not_hash_to_id", case.surface),
@@ -1674,7 +1693,7 @@ fn main() {
     check.assume("page `content` is a JSON string: it is compared exactly when the page's byte range is valid UTF-8; for binary output only byte counts / offsets / totals are compared; a range that cuts a character of otherwise valid text is the known finding K2");
     check.assume("foreground preview is compared line-wise as the frames carry it (one tool_stdout/tool_stderr frame per line): chunks joined with \\n must equal the lossy-decoded first min(total, max_bytes) bytes (or up to the last character boundary before the limit) minus one final newline, carriage returns ignored on both sides; for invalid UTF-8 previews U+FFFD is ignored on both sides");
     check.assume("the SSE join may lose a frame (publish-before-record, C06/F10): lifecycle verdicts use the raw truth log; SSE frames must equal the logged frame of the same seq, missing ones are counted");
-    check.assume("stored bytes are read after the terminal frame AND the task snapshot exist (tool: after the call returned); a mismatch is re-read once after 200 ms: persistent = violation, transient = counted as transient_mismatch");
+    check.assume("stored bytes are read after the terminal frame AND the task snapshot exist (tool: after the call returned); a mismatch is re-read after 200 ms and then polled for up to 10 s: equal at some point = transient (counted as transient_mismatch, never a failure), still different after 10 s = violation");
     check.assume(format!("range readers allocate vec![0u8; max_bytes] before reading: page sizes are capped at {PAGE_MAX} bytes in-process (larger values can abort the harness process, not produce a verdict)"));
 
     let listed = |sig: &str| check.known().matches(sig).is_some();
